@@ -39,7 +39,7 @@ PID = 'X03'
 JVM = {'JAVA_TOOL_OPTIONS': '-XX:ParallelGCThreads=2 -XX:CICompilerCount=2'}
 WORKERS = 2
 MAX_ROW, MAX_COL = 1048576, 16384
-RANDOM_ROUNDS = 2
+RANDOM_ROUNDS = 4
 RANDOM_SCENARIOS = 14
 
 
@@ -202,7 +202,6 @@ class Real:
         self.path, self.init, self.w = path, grid, w
         self.m = ExcelCompiler(filename=path)
         self.hist = []
-        self.colours = {}
 
     def set(self, c, r, v, form):
         from pycel.excelutil import AddressCell
@@ -431,8 +430,7 @@ class Walker:
         self.forms = {}
         self.by_scenario = {}
         self.reload = dict(models=0, same=0, different=0, raised=0, examples=[])
-        self.impl = dict(cf_cells=0, cf_cells_in_dep_graph=0, cf_cells_with_cached_value=0,
-                         cf_cell_rebuilt=0)
+        self.impl = dict(cf_cells=0, cf_cells_in_dep_graph=0, cf_cells_with_cached_value=0)
         self.groups = {}
 
     def form_for(self, act, rec):
@@ -494,12 +492,16 @@ class Walker:
             q = queries[act['q'] - 1]
             try:
                 got = real.query(q, queries, form)
-                why = compare(real, q, queries, exp, got, form)
-                kind = 'answer'
             except Exception as exc:       # noqa  an exception is a discrepancy
                 why = f'raised {type(exc).__name__}: ' + (str(exc).strip().splitlines() or [''])[-1][:200]
                 kind = 'raised ' + type(exc).__name__
                 got = None
+            else:
+                kind = 'answer'
+                try:
+                    why = compare(real, q, queries, exp, got, form)
+                except TypeError as exc:   # not the nested tuples of ids it should be
+                    why = f'malformed answer {got!r}: {exc}'
             self.count(exp, q, queries)
             if why:
                 rules = ' | '.join(rule_text(r) for r in scn['rules'])
@@ -826,7 +828,7 @@ def expected_from_model(scn, values, q, queries, w, h):
         f.write('---- MODULE MC_CondFormatR ----\nEXTENDS MC_CondFormat\n'
                 f'RRows == {grid}\nRGrid == [p \\in (1..{w}) \\X (1..{h}) |-> RRows[p[2]][p[1]]]\n'
                 f'RScenarios == << Sc("replay", {rules}, {trules}) >>\n'
-                f'RQuery == PrintT(ToJson([exp |-> Expected(1, vals, Queries[{qi}])]))\n====\n')
+                f'RQuery == PrintT(ToJson([exp |-> Expected(1, ans, Queries[{qi}])]))\n====\n')
     with open(os.path.join(d, 'R.cfg'), 'w') as f:
         f.write(f'CONSTANTS\n  W = {w}\n  H = {h}\n  Scenarios <- RScenarios\n  InitGrid <- RGrid\n'
                 '  SetPool <- MCSetPool\n  MaxChanged = 0\n  Queries <- MCQueries\n'
